@@ -29,8 +29,25 @@ COMPS = {
 }
 
 
+LOOKUP_NAMES = ["a", "b", "c", "d", "c1", "c2", "c3", "c4", "c5", "c6", "scorer", "ranker", "m1", "m2", "al1", "rec", "zz"]
+
+
 def digest(obj) -> str:
     return hashlib.sha256(json.dumps(obj, sort_keys=True, default=str).encode()).hexdigest()[:16]
+
+
+def frame_digest(df) -> str:
+    """a frame handed out by a dataset accessor, read WITHOUT touching it (user_stats() / item_stats() hand out the frame cached
+    inside the dataset: the observer must never sort, fill or re-index it in place)"""
+    return digest({"index": [str(x) for x in df.index.tolist()], "index_name": str(df.index.name), "dtypes": {str(c): str(t) for c, t in df.dtypes.items()},
+                   "values": df.to_json(orient="split", date_unit="ns")})
+
+
+def guarded(f):
+    try:
+        return f()
+    except Exception as e:
+        return "!" + type(e).__name__
 
 
 def table_digest(t: pa.Table) -> str:
@@ -79,6 +96,8 @@ class World:
             "config": p.config.model_dump_json(),
             "nic": {n.name: {k: v.name for k, v in p.node_input_connections(n).items()} for n in p.nodes()},
             "private_edges": {n: dict(e) for n, e in p._edges.items()},
+            # what the pipeline answers when asked for a node by any of the strings the histories use as node names and aliases
+            "lookup": {q: getattr(p.node(q, missing="none"), "name", None) for q in LOOKUP_NAMES},
         }
         j = next((i for i, q in enumerate(self.pipes) if q is p), None)
         toks = self.ptok[j] if j is not None and j < len(self.ptok) else {}
@@ -133,6 +152,35 @@ class World:
             except Exception as e:
                 views["users"] = "!" + type(e).__name__
             views["items"] = d.items.ids().tolist()
+            # every field of the schema, as one document
+            views["schema-json"] = digest(d.schema.model_dump_json())
+            # derived / cached views: per-user and per-item statistics, counts, matrix forms with values, rows of the default matrix
+            views["stats:user"] = guarded(lambda: frame_digest(d.user_stats()))
+            views["stats:item"] = guarded(lambda: frame_digest(d.item_stats()))
+            views["counts"] = {"users": guarded(lambda: int(d.user_count)), "items": guarded(lambda: int(d.item_count)),
+                               "interactions": guarded(lambda: int(d.interaction_count)),
+                               **{"e:" + c: guarded(lambda c=c: int(d.entities(c).count())) for c in sch["entities"]},
+                               **{"r:" + c: guarded(lambda c=c: int(d.relationships(c).count())) for c in sch["relationships"]}}
+            for rcls in sch["relationships"]:
+                if len(sch["relationships"][rcls]["entities"]) != 2:
+                    continue
+
+                def mat(rcls=rcls):
+                    ms = d.relationships(rcls).matrix()
+                    m = ms.scipy()
+                    cs = ms.csr_structure()
+                    return digest({"shape": list(m.shape), "indptr": m.indptr.tolist(), "indices": m.indices.tolist(), "data": m.data.tolist(),
+                                   "n": [int(ms.n_rows), int(ms.n_cols)], "rowptrs": np.asarray(cs.rowptrs).tolist(), "colinds": np.asarray(cs.colinds).tolist(),
+                                   "rowstats": frame_digest(ms.row_stats()), "colstats": frame_digest(ms.col_stats())})
+                views["matrix-values:" + rcls] = guarded(mat)
+
+            def rows():
+                out = []
+                for u in d.users.ids().tolist():
+                    il = d.user_row(u)
+                    out.append([u, None if il is None else ilist_digest(il)])
+                return digest(out)
+            views["user-rows"] = guarded(rows)
             if save:
                 try:
                     with tempfile.TemporaryDirectory(prefix="c14-") as tmp:
@@ -147,6 +195,15 @@ class World:
                 except Exception as e:   # e.g. the summary writer on a cleared relationship class (not this property's subject)
                     views["saved"] = "!" + type(e).__name__
             o["views"] = views
+
+            def facts():
+                idle = None
+                try:
+                    idle = int((d.user_stats()["count"].to_numpy() == 0).sum())
+                except Exception:
+                    pass
+                return {"empty_classes": sorted(c for c in sch["entities"] if d.entities(c).count() == 0), "idle_users": idle}
+            o["facts"] = guarded(facts)
         return o
 
     def obs_dbld(self, b: DatasetBuilder):
@@ -159,12 +216,13 @@ class World:
             "tables": {n: table_digest(pa.table({n + "_id": pa.array([], type=pa.int64())}) if t is None else t) for n, t in b._tables.items()},
         }
 
-    def snapshot(self, case, final=False):
+    def snapshot(self, case, final=False, derived_from=None):
         runs = case.get("runs", [])
         deep = case.get("deep", True)
         seen = getattr(self, "_seen_dsets", 0)
+        # the saved form is written when a dataset is first seen, at the end, and again right after every operation that derives from it
         out = {"pipes": [self.obs_pipe(p, runs) for p in self.pipes],
-               "dsets": [self.obs_dset(d, deep, save=(final or j >= seen)) for j, d in enumerate(self.dsets)]}
+               "dsets": [self.obs_dset(d, deep, save=(final or j >= seen or j == derived_from)) for j, d in enumerate(self.dsets)]}
         self._seen_dsets = len(self.dsets)
         return out
 
@@ -177,6 +235,22 @@ class World:
         if st == "instance":
             return (c(**(op.get("settings") or {})),)
         return (c, op.get("settings") or {})
+
+    @staticmethod
+    def ref(b, op, field="name"):
+        """the way the operation names its node: the node name, the node object, or an alias string standing for it"""
+        by = op.get("by", "name")
+        if by == "alias":
+            return op["via"]
+        if by == "node":
+            return b.node(op[field])
+        return op[field]
+
+    @staticmethod
+    def sources(b, op):
+        "input sources as node objects, looked up by node name or through an alias of the source"
+        via = op.get("ins_via") or {}
+        return {p: b.node(via.get(p, t)) for p, t in op["ins"]}
 
     def apply(self, op):
         k = op["op"]
@@ -191,12 +265,12 @@ class World:
                 self.pblds[op["b"]].literal(op["value"], name=op["name"])
             elif k in ("pb_add", "pb_replace"):
                 b = self.pblds[op["b"]]
-                kw = {p: b.node(t) for p, t in op["ins"]}
+                kw = self.sources(b, op)
                 args = self.comp_args(op)
                 if k == "pb_add":
                     b.add_component(op["name"], *args, **kw)
                 else:
-                    b.replace_component(op["name"], *args, **kw)
+                    b.replace_component(self.ref(b, op), *args, **kw)
                 r["code"] = PipelineComponent.from_node(b._nodes[op["name"]]).code
                 st = op.get("style", "fn")
                 if st == "fn":
@@ -205,15 +279,18 @@ class World:
                     self.btok[op["b"]][op["name"]] = "ctor" if st == "class" else self.tok()
             elif k == "pb_connect":
                 b = self.pblds[op["b"]]
-                b.connect(op["name"], **{p: b.node(t) for p, t in op["ins"]})
+                b.connect(self.ref(b, op), **self.sources(b, op))
             elif k == "pb_clear":
-                self.pblds[op["b"]].clear_inputs(op["name"])
+                b = self.pblds[op["b"]]
+                b.clear_inputs(self.ref(b, op))
             elif k == "pb_alias":
-                self.pblds[op["b"]].alias(op["alias"], op["node"])
+                b = self.pblds[op["b"]]
+                b.alias(op["alias"], self.ref(b, op, "node"))
             elif k == "pb_unalias":
                 self.pblds[op["b"]].remove_alias(op["alias"])
             elif k == "pb_default":
-                self.pblds[op["b"]].default_component(op["name"])
+                b = self.pblds[op["b"]]
+                b.default_component(self.ref(b, op))
             elif k == "pbuild":
                 self.pipes.append(self.pblds[op["b"]].build())
                 self.ptok.append({n: (self.tok() if t == "ctor" else t) for n, t in self.btok[op["b"]].items()})
@@ -320,7 +397,11 @@ class World:
         elif how == "crossfold_records":
             parts = list(crossfold_records(d, partitions=op["parts"], rng=op["seed"]))
         elif how == "sample_users":
-            parts = [sample_users(d, size=op["size"], method=SampleN(op["n"], rng=op["seed"]), rng=op["seed"])]
+            if op.get("repeats"):
+                parts = list(sample_users(d, size=op["size"], method=SampleN(op["n"], rng=op["seed"]), repeats=op["repeats"],
+                                          disjoint=op.get("disjoint", True), rng=op["seed"]))
+            else:
+                parts = [sample_users(d, size=op["size"], method=SampleN(op["n"], rng=op["seed"]), rng=op["seed"])]
         elif how == "crossfold_users":
             parts = list(crossfold_users(d, partitions=op["parts"], method=LastN(op["n"]) if op.get("last") else SampleFrac(0.5, rng=op["seed"]), rng=op["seed"]))
         elif how == "global_time":
@@ -340,7 +421,6 @@ class World:
 
 
 def ilist_digest(il: ItemList) -> str:
-    df = il.to_df(numbers=False) if hasattr(il, "to_df") else None
     parts = {"ids": il.ids().tolist(), "ordered": bool(il.ordered), "len": len(il)}
     for f in sorted(getattr(il, "_fields", {}).keys()):
         try:
@@ -394,7 +474,7 @@ def run_history(case):
     steps = []
     for t, op in enumerate(case["ops"]):
         r = w.apply(op)
-        snap = w.snapshot(case, final=(t == len(case["ops"]) - 1))
+        snap = w.snapshot(case, final=(t == len(case["ops"]) - 1), derived_from=op.get("d") if op["op"] in ("dfrom", "dsplit") else None)
         steps.append({"result": r, "snap": snap})
     return {"steps": steps}
 
